@@ -264,6 +264,35 @@ def _mk(rng, space, nops=None, maxagents=9):
     return case
 
 
+def _big_growth_case(rng):
+    """initial capacity 100 (the default): fill it, go past it (growth by round(0.2 n) rows), compact, refill"""
+    nd = rng.choice([2, 3])
+    torus = rng.random() < 0.5
+    bounds = _bounds(rng, nd)
+    ops = []
+    n = rng.randint(101, 104)
+    for a in range(1, n + 1):
+        p = _point(rng, bounds, outside=torus and rng.random() < 0.2)
+        ops.append(["add", a, p, "l"])
+    live = list(range(1, n + 1))
+    for _ in range(rng.randint(3, 8)):
+        r = rng.random()
+        if r < 0.4:
+            a = rng.choice(live)
+            live.remove(a)
+            ops.append(["remove", a])
+        elif r < 0.7:
+            ops.append(["set", rng.choice(live), _point(rng, bounds), "l"])
+        elif r < 0.85:
+            ops.append(["radius", _point(rng, bounds), rng.choice([8, 16, 24])])
+        else:
+            ops.append(["knear", _point(rng, bounds), rng.choice([1, 3, len(live)])])
+    a = n + 1
+    ops.append(["add", a, _point(rng, bounds), "t"])
+    ops.append(["radius", _point(rng, bounds), 16])
+    return {"space": "exp", "bounds": bounds, "torus": torus, "cap": 100, "ops": ops}
+
+
 def gen_cases(rng, tier):
     n = 520 if tier == "quick" else 9000
     cases = []
@@ -275,6 +304,8 @@ def gen_cases(rng, tier):
         c = _mk(rng, "exp", nops=30, maxagents=14)
         c["cap"] = rng.choice([0, 1, 2, 3])
         cases.append(c)
+    for i in range(2 if tier == "quick" else 12):
+        cases.append(_big_growth_case(rng))
     return cases
 
 
